@@ -103,8 +103,9 @@ type Op struct {
 	CD      string      `json:"cd"`
 	UP      [][2]string `json:"up"`
 	// acks: pid explicit, or nth>0 = n-th outstanding delivery on k (symbolic)
-	Nth int `json:"nth"`
-	RC  int `json:"rc"`
+	Nth  int  `json:"nth"`
+	RC   int  `json:"rc"`
+	Drop bool `json:"drop"` // acks: the client closes the connection right after writing the packet (the broker reads it, its answer cannot be written)
 	// disconnect
 	Short bool `json:"short"` // v5 DISCONNECT/acks in their short forms
 	// tick
